@@ -4,6 +4,7 @@ import IbicusModel.Lemmas.GenIsimipFreq
 -- property theorems
 #print axioms Props.C10.step5_bounded_in_range
 #print axioms Props.C10.step5_in_range
+#print axioms Props.C10.step5_bounded_clip_noop_in_range
 #print axioms Props.C10.step6_good
 #print axioms Props.C10.step6_in_bounds
 #print axioms Props.C10.step6_no_gap
